@@ -3,6 +3,7 @@ import UscxmlVerif.Model.Large
 import UscxmlVerif.Model.Fast
 import UscxmlVerif.Spec.W3C
 import UscxmlVerif.Model.Api
+import UscxmlVerif.Model.Serial
 namespace Driver
 open UscxmlVerif UscxmlVerif.Model
 
@@ -97,3 +98,43 @@ def names (line : String) : String :=
     | none => "bad-chart"
   | _ => "bad-op"
 
+/-- decidable form of `Serial.Snapshotable` plus the conclusion of `restore_snapshot` on a concrete state -/
+def snapshotOk (c : Chart) (e : Large.EState) : Bool :=
+  let r := Model.Serial.restore c (Model.Serial.snapshot e)
+  Model.Serial.sorted e.config && Model.Serial.sorted e.history && Model.Serial.sorted e.invocations &&
+  e.configPF.filter (Model.Serial.hasTrans c) == (Model.Serial.rebuildPF c e.config).filter (Model.Serial.hasTrans c) && e.x.iq.isEmpty && e.microConfigs.isEmpty && !e.cancelled &&
+  r.config == e.config && r.configPF.filter (Model.Serial.hasTrans c) == e.configPF.filter (Model.Serial.hasTrans c) && r.history == e.history && r.invocations == e.invocations &&
+  r.x.eq == e.x.eq && r.x.vars == e.x.vars && r.stable == e.stable && r.finished == e.finished &&
+  r.topLevelFinal == e.topLevelFinal && r.pristine == e.pristine && r.spontaneous == e.spontaneous
+
+/-- request `<engine>\t<chart>\t<events>`: run the model; at every point where a snapshot may be taken
+(step returned MACROSTEPPED or IDLE; a finished interpreter is inert) check `snapshotOk`. Answer `ok <points>` or `bad <point>` -/
+def snapcheck (line : String) : String :=
+  match line.splitOn "\t" with
+  | engine :: sx :: evs :: _ =>
+    match parseSExp sx >>= parseDocNamed with
+    | some (d, late) =>
+      let c := flatten d late
+      let events := if evs == "-" then [] else evs.splitOn ","
+      let stepF := if engine == "fast" then Fast.step c else Large.step c
+      let rec go (fuel : Nat) (e : Large.EState) (pts : Nat) (bad : Option Nat) : Large.EState × Nat × Option Nat :=
+        match fuel with
+        | 0 => (e, pts, bad)
+        | fuel + 1 =>
+          let (e', r) := stepF e
+          let stablePoint := r == .macrostepped || r == .idle
+          let bad' := if bad.isNone && stablePoint && !snapshotOk c e' then some pts else bad
+          let pts' := if stablePoint then pts + 1 else pts
+          if r == .idle || r == .finished then (e', pts', bad') else go fuel e' pts' bad'
+      let init : Large.EState := {}
+      let (e, pts, bad) := go stepCap init 0 none
+      let (_, pts, bad) := events.foldl (fun (acc : Large.EState × Nat × Option Nat) ev =>
+        let (e, pts, bad) := acc
+        go stepCap { e with x := e.x.sendExt ev } pts bad) (e, pts, bad)
+      match bad with
+      | none => s!"ok {pts}"
+      | some k => s!"bad {k}"
+    | none => "bad-chart"
+  | _ => "bad-op"
+
+end Driver
